@@ -138,9 +138,25 @@ def leaf_spec(l, sp=None):
         val = None
     elif sg == "single":
         v = (list(l.kwargs.values()) + list(l.args))[0]
+        canon = None
         if typed:
+            if sp.share and isinstance(v, list) and v and all(isinstance(x, type) and x in TYPE_NAMES for x in v):
+                canon = ("list-arg", repr([TYPE_NAMES[x][0] for x in v]))
             v = [conv(x) for x in v] if isinstance(v, list) else conv(v)
         val = arg_spec(v, sp)
+        if sp.share and isinstance(val, list) and val:
+            # a list of names written once and used as the argument of two terms (a YAML anchor and its alias): the
+            # type names of a dtype term and the equal literal strings of a plain term are then ONE list object
+            if canon is not None and canon in sp.memo:
+                val = sp.memo[canon]
+                sp.dims.add("shared-arg-list")
+            elif all(isinstance(x, str) for x in val):
+                key_ = ("list-arg", repr(val))
+                if key_ in sp.memo:
+                    val = sp.memo[key_]
+                    sp.dims.add("shared-arg-list")
+                else:
+                    sp.memo[key_] = val
     elif sg == "multi":
         names = PARAMS[l.name]
         kw = {k: arg_spec(v, sp, 1) for k, v in l.kwargs.items()}
